@@ -326,3 +326,97 @@ K("tri.validate_at_completion", ["C05", "C02"], TRI, "triangulation.rs", "valida
   [fn(TRI, "validate_at_completion")], timeout=600,
   obligations=["completion-links", "links-consulted", "completion-skip"], assumed=[_ASSUME_VALIDATORS],
   claim="validate_at_completion: vertex-link validation decides iff guarantee in {PLManifold, Strict} and cells > 0")
+
+# ======================================================================================
+# C05 / C11 : Tds validators and generation counter (K-callee / K-full)
+# ======================================================================================
+TDS = "src/core/triangulation_data_structure.rs"
+K("tds.level2", ["C05"], TDS, "tds.rs", "level2_conjunction_contract", "K-callee",
+  [fn(TDS, "is_valid", anchor=r"pub fn is_valid\(&self\) -> Result<\(\), TdsValidationError>")], timeout=900,
+  obligations=["conjunction", "all-consulted", "err-origin", "fast-fail"], assumed=[_ASSUME_VALIDATORS],
+  bounded="the facet map handed to the sub-validators is the empty map (drop loop unwound once, unwinding assertion on)",
+  claim="Tds::is_valid == conjunction of its nine structural invariants, consulted in order, fast-fail",
+  mutant=dict(file=TDS, old="        self.validate_no_duplicate_cells()?;\n\n        // Build the facet-to-cells map once and share", new="        // Build the facet-to-cells map once and share",
+              desc="duplicate-cell invariant dropped from Level 2"))
+K("tds.generation", ["C11"], TDS, "tds.rs", "generation_contract", "K-full",
+  [fn(TDS, "bump_generation"), fn(TDS, "generation", anchor=r"pub fn generation\(&self\) -> u64"), fn(TDS, "mark_topology_modified")], timeout=300,
+  obligations=["read", "bump", "mark", "queries-pure"],
+  claim="Tds::{bump_generation, mark_topology_modified}: exactly +1 for every counter value; generation() reads it; queries do not bump",
+  mutant=dict(file=TDS, old="        self.generation.fetch_add(1, Ordering::Relaxed);", new="        self.generation.fetch_add(0, Ordering::Relaxed);",
+              desc="bump_generation no longer changes the counter"))
+
+# ======================================================================================
+# C03 / C08 : three-attempt repair protocol (K-callee)
+# ======================================================================================
+_ASSUME_ATTEMPT = ("callee contracts assumed (stubs): a repair attempt may perform any flips and return Ok / Err(NonConvergent) / any other Err; "
+                   "verify_repair_postcondition is pure and returns any verdict; bodies NOT verified")
+for d, tier, to in [(2, "quick", 900), (3, "thorough", 1200), (1, "thorough", 300)]:
+    K(f"repair.protocol.d{d}", ["C03", "C08", "C19"] if d > 1 else ["C08", "C19"], FLIPS, "flips.rs", f"repair_protocol_d{d}", "K-callee",
+      [fn(FLIPS, "repair_delaunay_with_flips_k2_k3"), fn(FLIPS, "repair_delaunay_with_flips_k2_k3_attempts")], tier=tier, timeout=to,
+      assumed=[_ASSUME_ATTEMPT], ignore_dealloc_model=True,
+      obligations=["low-dim"] if d < 2 else ["three-attempts", "attempt-order", "clean-start", "engine-by-dim", "ok-certified", "ok-certified-state", "err-unchanged"],
+      claim="repair_delaunay_with_flips_k2_k3 for EVERY outcome sequence of its attempts and postcondition checks: Ok only if the last event is a passing "
+            "postcondition check on the state returned; <= 3 attempts, each from the pre-repair state; Err => triangulation unchanged",
+      mutant=dict(file=FLIPS, old="            *tds = tds_snapshot.clone();\n            let retry_seed_cells = None;", new="            let retry_seed_cells = None;",
+                  desc="snapshot restore before attempt 2 deleted") if d == 2 else None)
+
+# ======================================================================================
+# delaunay_triangulation.rs : removal, Edit-API index coherence, repair gate, Level-4 plumbing
+# ======================================================================================
+_DT_IMPL = None
+_ASSUME_RM = ("callee contracts assumed (stubs): vertex_key_from_uuid (any lookup result); apply_bistellar_flip_k1_inverse (Ok => any change, "
+              "Err => ASSUMED unchanged - its internal rollback is storage code, not under contract); Triangulation::remove_vertex (Ok(n) => any change, "
+              "Err => unchanged by its own snapshot restore - ASSUMED, its closure needs real cells); should_run_delaunay_repair_for (any bool; proved by dt.should_run); "
+              "repair_delaunay_with_flips_k2_k3 (contract PROVED by repair.protocol: Ok => any change, Err => unchanged)")
+K("dt.remove_vertex", ["C03", "C06", "C19"], DT, "dt.rs", "remove_vertex_contract", "K-callee",
+  [fn(DT, "remove_vertex", anchor=r"pub fn remove_vertex\(\s*&mut self,\s*vertex: &Vertex<K::Scalar, U, D>,\s*\) -> Result<usize, TriangulationValidationError>")],
+  tier="quick", timeout=1500, assumed=[_ASSUME_RM], ignore_dealloc_model=True,
+  obligations=["unknown-noop", "ok-count", "repair-iff-policy", "fastpath-first", "err-unchanged", "fan-fallback"],
+  claim="DelaunayTriangulation::remove_vertex for EVERY outcome of its callees: unknown vertex => Ok(0) untouched; Ok(n) reports the path's count; "
+        "repair runs iff policy says so; Err => triangulation exactly as before (snapshot restored)",
+  mutant=dict(file=DT, old="            if let Err(e) = repair_delaunay_with_flips_k2_k3(tds, kernel, seed_ref, topology) {\n                self.tri.tds = tds_snapshot;",
+              new="            if let Err(e) = repair_delaunay_with_flips_k2_k3(tds, kernel, seed_ref, topology) {", desc="snapshot restore after a failed post-removal repair deleted"))
+K("dt.flip_k1_insert_index", ["C09"], DT, "dt.rs", "flip_k1_insert_index_contract", "K-callee",
+  [dict(file="src/triangulation/flips.rs", name="DelaunayTriangulation::flip_k1_insert", anchor=r"\bfn\s+flip_k1_insert\b",
+        within=r"impl<K, U, V, const D: usize> BistellarFlips<K, U, V, D> for DelaunayTriangulation<K, U, V, D>"),
+   fn(DT, "triangulation_mut_for_edit")],
+  timeout=600, assumed=["apply_bistellar_flip_k1 (stub): Ok => a vertex was added (any change), Err => any"],
+  obligations=["delegates", "verdict", "index-dropped"],
+  claim="Edit-API flip_k1_insert on a DelaunayTriangulation: whenever it adds a vertex the duplicate index is dropped, so the next insert rebuilds it from ALL vertices",
+  mutant=dict(file="src/triangulation/flips.rs", old="        self.triangulation_mut_for_edit()\n            .flip_k1_insert(cell_key, vertex)", new="        self.tri.flip_k1_insert(cell_key, vertex)",
+              desc="Edit-API insert bypasses the cache-dropping accessor again (F2)"))
+K("dt.mutable_access", ["C09"], DT, "dt.rs", "mutable_access_drops_caches_contract", "K-full",
+  [fn(DT, "as_triangulation_mut"), fn(DT, "triangulation_mut_for_edit")], timeout=600,
+  obligations=["as-triangulation-mut", "edit-accessor"],
+  claim="as_triangulation_mut / triangulation_mut_for_edit drop the duplicate index and the locate hint",
+  mutant=dict(file=DT, old="    pub fn as_triangulation_mut(&mut self) -> &mut Triangulation<K, U, V, D> {\n        // Direct mutable access can invalidate performance caches.\n        self.insertion_state.last_inserted_cell = None;\n        self.spatial_index = None;",
+              new="    pub fn as_triangulation_mut(&mut self) -> &mut Triangulation<K, U, V, D> {\n        // Direct mutable access can invalidate performance caches.\n        self.insertion_state.last_inserted_cell = None;",
+              desc="as_triangulation_mut no longer drops the duplicate index"))
+for d, tier in [(2, "quick"), (1, "thorough")]:
+    K(f"dt.should_run.d{d}", ["C06", "C08"], DT, "dt.rs", f"should_run_repair_d{d}", "K-callee",
+      [fn(DT, "should_run_delaunay_repair_for")], tier=tier, timeout=600,
+      assumed=["Tds::number_of_cells (stub: any count)", "insertion_count <= 4096, EveryN n <= 64 (symbolic modulo kept small)"],
+      bounded="insertion_count <= 4096 and n <= 64 for the EveryN arithmetic",
+      obligations=["never-when", "due"] if d >= 2 else ["never-when"],
+      claim="should_run_delaunay_repair_for: false for D < 2 / no cells / policy Never; otherwise exactly when the policy is due")
+K("dt.everyn", ["C08", "C02"], DT, "dt.rs", "everyn_contract", "K-full",
+  [fn(DT, "should_repair"), fn(DT, "should_check")], timeout=600,
+  bounded="n <= 255, count <= 65535 (bit-precise modulo)", obligations=["repair-everyn", "check-everyn", "check-endonly"],
+  claim="DelaunayRepairPolicy::EveryN / DelaunayCheckPolicy::EveryN fire exactly on multiples of n; EndOnly never")
+K("dt.repair_entry", ["C08", "C03"], DT, "dt.rs", "repair_entry_contract", "K-callee",
+  [fn(DT, "repair_delaunay_with_flips", anchor=r"pub fn repair_delaunay_with_flips\(&mut self\)")], timeout=900, ignore_dealloc_model=True,
+  assumed=["repair_delaunay_with_flips_k2_k3 (contract PROVED by repair.protocol)"],
+  obligations=["single-run", "ok-from-engine", "err-unchanged"],
+  claim="repair_delaunay_with_flips (public entry): engine wrapper runs at most once; Err => unchanged")
+K("dt.level4_is_valid", ["C04"], DT, "dt.rs", "level4_is_valid_contract", "K-callee",
+  [fn(DT, "is_valid", anchor=r"pub fn is_valid\(&self\) -> Result<\(\), DelaunayTriangulationValidationError>"), fn(DT, "is_delaunay_via_flips")],
+  timeout=900, assumed=["verify_delaunay_via_flip_predicates (stub: any verdict); alloc::fmt::format stubbed (message text not modelled)"],
+  obligations=["consults-verifier", "verdict"],
+  claim="DelaunayTriangulation::is_valid is Err exactly when the flip-predicate verifier reports a violation")
+K("dt.level4_validate", ["C04", "C05"], DT, "dt.rs", "level4_validate_contract", "K-callee",
+  [fn(DT, "validate", anchor=r"pub fn validate\(&self\) -> Result<\(\), DelaunayTriangulationValidationError>")],
+  timeout=900, assumed=["Triangulation::validate (contract proved by tri.validate), DelaunayTriangulation::is_valid (dt.level4_is_valid): any verdict"],
+  obligations=["conjunction", "all-consulted"],
+  claim="DelaunayTriangulation::validate == Triangulation::validate (Levels 1-3) && is_valid (Level 4)",
+  mutant=dict(file=DT, old="        self.tri.validate()?;\n        self.is_valid()\n", new="        self.tri.validate()?;\n        Ok(())\n",
+              desc="the Level-4 call dropped from validate()"))
